@@ -6,6 +6,8 @@ package c02
 
 import (
 	"fmt"
+	"sort"
+	"strconv"
 	"strings"
 
 	"verif/harness/vf"
@@ -123,7 +125,7 @@ type tripCtx struct {
 	w     *vf.Worker
 	F     []format
 	s     stream
-	want  string // shape of s
+	want  string               // shape of s
 	T     []convRes            // T[A]: text of s in format A
 	X     [][]convRes          // X[A][B]: A->B applied to T[A]
 	dec   map[string]decodeRes // decode cache by format name + text
@@ -132,7 +134,89 @@ type tripCtx struct {
 
 type decodeRes struct {
 	shape string
+	recs  []*jval
 	err   string
+}
+
+// diffCause names how two record lists differ, for the violation group (so that
+// one defect flooding many format pairs stays in its own groups).
+func diffCause(want stream, got decodeRes) string {
+	if got.err != "" {
+		return "unreadable"
+	}
+	if len(got.recs) != len(want) {
+		// records of want missing from got, in order?
+		j := 0
+		for _, r := range want {
+			if j < len(got.recs) && flatRecEqual(r, got.recs[j]) {
+				j++
+			}
+		}
+		if len(got.recs) < len(want) && j == len(got.recs) {
+			return "records-dropped"
+		}
+		return "record-count"
+	}
+	causes := map[string]bool{}
+	for i, r := range want {
+		g := got.recs[i]
+		if g.kind != jMap {
+			causes["not-a-record"] = true
+			continue
+		}
+		if flatRecEqual(r, g) {
+			continue
+		}
+		wantKeys := append([]string(nil), r.keys()...)
+		gotKeys := append([]string(nil), g.keys...)
+		sort.Strings(wantKeys)
+		sort.Strings(gotKeys)
+		if strings.Join(wantKeys, "\x00") != strings.Join(gotKeys, "\x00") || len(wantKeys) != len(gotKeys) {
+			causes["keys-changed"] = true
+			continue
+		}
+		if strings.Join(r.keys(), "\x00") != strings.Join(g.keys, "\x00") {
+			causes["key-order"] = true
+		}
+		for _, f := range r {
+			gv := g.get(f.K)
+			if gv == nil || gv.kind != jScalar {
+				causes["value-changed"] = true
+				continue
+			}
+			if gv.text == f.V {
+				continue
+			}
+			a, err1 := strconv.ParseFloat(f.V, 64)
+			b, err2 := strconv.ParseFloat(gv.text, 64)
+			if err1 == nil && err2 == nil && a == b {
+				causes["number-respelled"] = true
+			} else {
+				causes["value-changed"] = true
+			}
+		}
+	}
+	var cs []string
+	for c := range causes {
+		cs = append(cs, c)
+	}
+	sort.Strings(cs)
+	if len(cs) == 0 {
+		return "other"
+	}
+	return strings.Join(cs, "+")
+}
+
+func flatRecEqual(r rec, g *jval) bool {
+	if g.kind != jMap || len(g.keys) != len(r) {
+		return false
+	}
+	for i, f := range r {
+		if g.keys[i] != f.K || g.vals[i].kind != jScalar || g.vals[i].text != f.V {
+			return false
+		}
+	}
+	return true
 }
 
 func cmdline(args []string) string {
@@ -184,9 +268,30 @@ func (t *tripCtx) decode(f format, text string) decodeRes {
 		d.err = "not JSON: " + err.Error()
 	} else {
 		d.shape = shapesOf(vs)
+		d.recs = vs
 	}
 	t.dec[key] = d
 	return d
+}
+
+// streamOf turns decoded flat records back into a stream (nested values are rendered as text).
+func streamOf(vs []*jval) stream {
+	var s stream
+	for _, v := range vs {
+		var r rec
+		if v.kind == jMap {
+			for i, k := range v.keys {
+				x := v.vals[i]
+				if x.kind == jScalar {
+					r = append(r, kv{k, x.text})
+				} else {
+					r = append(r, kv{k, shapeOf(x)})
+				}
+			}
+		}
+		s = append(s, r)
+	}
+	return s
 }
 
 func hasFlatsepKey(s stream) bool {
@@ -292,7 +397,7 @@ func oneStream(w *vf.Worker, F []format, s stream, quick bool) {
 		}
 		d := t.decode(f, c.out)
 		if d.err != "" || d.shape != t.want {
-			w.Violation(fmt.Sprintf("trip[json>%s>json]:%s:%s", f.name, size, sh),
+			w.Violation(fmt.Sprintf("trip[%s][json>%s>json]:%s:%s", diffCause(s, d), f.name, size, sh),
 				fmt.Sprintf("%s | mlr %s --ojson --no-auto-unflatten cat: records changed: %s text %s reads back as %s %s, expected %s", cmdline(convArgs(jf, f)), strings.Join(f.in, " "), f.name, brief(c.out), d.shape, d.err, t.want),
 				map[string]any{"args": convArgs(jf, f), "stdin": J, "text": c.out})
 			in[i] = false // do not pile consequences of the same failure onto every pair
@@ -343,7 +448,7 @@ func oneStream(w *vf.Worker, F []format, s stream, quick bool) {
 				}
 				continue
 			}
-			w.Violation("trip"+pairKey,
+			w.Violation("trip["+diffCause(s, d)+"]"+pairKey,
 				fmt.Sprintf("%s | %s does not reproduce the records: %s input %s -> %s %s -> %s %s = records %s %s, expected %s",
 					cmdline(convArgs(A, B)), cmdline(convArgs(B, A)), A.name, brief(t.T[a].out), B.name, brief(x.out), A.name, brief(y.out), d.shape, d.err, t.want),
 				map[string]any{"args1": convArgs(A, B), "stdin": t.T[a].out, "args2": convArgs(B, A), "mid": x.out, "got": y.out})
@@ -398,7 +503,11 @@ func oneStream(w *vf.Worker, F []format, s stream, quick bool) {
 					}
 					continue
 				}
-				w.Violation("path"+key,
+				cause := "unreadable"
+				if d1.err == "" {
+					cause = diffCause(streamOf(d1.recs), d2)
+				}
+				w.Violation("path["+cause+"]"+key,
 					fmt.Sprintf("%s | %s differs from %s on %s input %s: via %s: %s = records %s %s; direct: %s = records %s %s",
 						cmdline(convArgs(A, C)), cmdline(convArgs(C, B)), cmdline(convArgs(A, B)), A.name, brief(t.T[a].out), C.name, brief(z.out), d2.shape, d2.err, brief(direct), d1.shape, d1.err),
 					map[string]any{"args_direct": convArgs(A, B), "args_via1": convArgs(A, C), "args_via2": convArgs(C, B), "stdin": t.T[a].out, "mid": t.X[a][c].out, "got_via": z.out, "got_direct": direct})
@@ -408,5 +517,6 @@ func oneStream(w *vf.Worker, F []format, s stream, quick bool) {
 	if nontrivial {
 		w.Nontrivial(1)
 		w.AddSet("streams", sh)
+		w.Sample(map[string]any{"part": "convert", "stream": sh, "json_start_text": J})
 	}
 }
